@@ -1,6 +1,6 @@
 # replay of a solver counterexample against the real library (exit 1 = reproduces)
 import sys, warnings
-sys.path.insert(0, '/tmp/sr/C18-m6')
+sys.path.insert(0, '/tmp/sr/C18-m5')
 warnings.simplefilter('ignore')
 import numpy as np
 from svgpathtools import *
@@ -21,13 +21,13 @@ attrs = [{'stroke': 'red', 'fill': 'none', 'xml:space': 'preserve'}]; svg_attrs 
 fd, fn = tempfile.mkstemp(suffix='.svg'); os.close(fd)
 try:
     if writer == 'wsvg':
-        wsvg(paths, attributes=attrs[:len(paths)], svg_attributes=dict(svg_attrs), viewbox='0 0 30 20', filename=fn)
+        wsvg(paths, attributes=[attrs[i % len(attrs)] for i in range(len(paths))], svg_attributes=dict(svg_attrs), viewbox='0 0 30 20', filename=fn)
     elif writer == 'Document':
         doc = Document()
-        for p, a in zip(paths, attrs): doc.add_path(p, a)
+        for i, p in enumerate(paths): doc.add_path(p, attrs[i % len(attrs)])
         doc.save(fn)
     else:
-        wsvg(paths, attributes=attrs[:len(paths)], svg_attributes=dict(svg_attrs), viewbox='0 0 30 20', filename=fn)
+        wsvg(paths, attributes=[attrs[i % len(attrs)] for i in range(len(paths))], svg_attributes=dict(svg_attrs), viewbox='0 0 30 20', filename=fn)
         sd = SaxDocument(fn); sd.save(fn)
     got_attrs = None; got_svg = None
     if reader == 'svg2paths2': out, got_attrs, got_svg = svg2paths2(fn)
